@@ -97,8 +97,15 @@ impl<'a> Iterator for TokenIterator<'a> {
         if self.0.peek().is_none() {
             return Some(Token::Eof);
         }
+        // Blanks are skipped here, instead of calling next() again for
+        // every one of them.
+        while let Some(' ') | Some('\t') = self.0.peek() {
+            self.0.next();
+        }
+        if self.0.peek().is_none() {
+            return Some(Token::Eof);
+        }
         let res = match self.0.next().unwrap() {
-            ' ' | '\t' => return self.next(),
             '\n' => Token::Newline,
             '(' => Token::LPar,
             ')' => Token::RPar,
